@@ -142,3 +142,21 @@ PROPS.update({
         "assumptions": SM9_ASSUME,
     },
 })
+
+PROPS.update({
+    "C15": {
+        "level": "exploration",
+        "profiles": BOTH,
+        "rule": "four-step histories exchange_1..4 with injected rA, rB between library parties: R_A, R_B, S_B, S_A and both derived keys (hook accessor) must equal the reference GB/T 32918.3 run (w = 127, one-byte tags) on what each side saw; for each of the 16 subsets of {R_A,R_B,S_B,S_A} tampered in transit (other point, negated, off-curve, bit-flipped hash) the reference history says which step must be the first to fail and the library must fail there and never end with both sides accepting. Distinct by (dA, dB, ids, klen, rA, rB, subset, kind)",
+        "assumptions": SM2_ASSUME + ["the point at infinity as R is excluded from the must-fail set"],
+    },
+})
+
+PROPS.update({
+    "C14": {
+        "level": "exploration",
+        "profiles": BOTH,
+        "rule": "for each of the 13 randomised call sites: every scalar accepted by the generator during the call (hook) must lie in [1, order-1]; the scalar the output demonstrably depends on (recovered with the reference: k from (r,s) and d, C1=[k]G, R=[r]G, public key=[d]G, SM9 C1=[r]Q, (h,S), R_A, R_B, Ppub) must be the one drawn in that call; no scalar repeats across calls, sites, 8 threads and the separately started shard processes (driver-level merge); per site and bit position the count of ones is within 8 sigma of the exact expectation under the uniform distribution on [1, order-1]; out-of-range candidates (0, order, order+1.., 2^256-1, SM2 [n,p-2]) injected at the byte source are never accepted. Distinct by scalar value / (site, injected candidate)",
+        "assumptions": SM2_ASSUME + SM9_ASSUME[2:3] + ["'OS-seeded' is only observable as non-repetition across calls/threads/processes plus bit statistics"],
+    },
+})
